@@ -240,6 +240,43 @@ def replay_c17(ctx):
 
 
 # ------------------------------------------------------------------------------------------------
+# C15: generated programs containing tree! literals
+
+
+def run_c15(ctx):
+    prop, tier, seed = ctx["prop"], ctx["tier"], ctx["seed"]
+    res = dict(partials=[], violations=[], known_lines=[], output="")
+    rc, out, dt = ctx["build"](["itv-c15"], "vrel")
+    if rc != 0:
+        ctx["fail_infra"](prop, "itv-c15 does not build", out)
+    part = os.path.join(ctx["TARGET"], "partials", f"{prop}.json")
+    if os.path.exists(part):
+        os.remove(part)
+    rc, out, dt = ctx["sh"]([os.path.join(ctx["TARGET"], "vrel", "itv-c15"), "run", "--tier", tier, "--seed", str(seed), "--out", part], timeout=6 * 3600)
+    res["output"] += out
+    if rc in (0, 1) and os.path.exists(part):
+        p = json.load(open(part))
+        res["partials"].append(p)
+        if rc == 1 and p.get("violation"):
+            res["violations"].append((p["violation"]["replay"], p["violation"]["sig"] + ": " + p["violation"]["msg"]))
+    else:
+        res["inconclusive"] = f"itv-c15 exited with {rc} (generated crate could not be built/run for a reason no single literal reproduces)"
+    return res
+
+
+def replay_c15(ctx):
+    rc, out, dt = ctx["build"](["itv-c15"], "vrel")
+    if rc != 0:
+        print(out[-2000:])
+        return 2
+    rc, out, _ = ctx["sh"]([os.path.join(ctx["TARGET"], "vrel", "itv-c15"), "replay", "--file", ctx["replay"]], timeout=3600)
+    print(out.rstrip())
+    if rc == 1:
+        print(f"VIOLATION property=C15 replay={ctx['replay']}")
+    return rc
+
+
+# ------------------------------------------------------------------------------------------------
 # C18: Send/Sync (compile-time), no unsafe / interior mutability (lexical tripwire, auxiliary),
 # concurrent readers vs single thread (generated arenas), TSan in thorough
 
@@ -436,5 +473,7 @@ RULES["C17"] = "One seeded battery (E(3,3) exhaustively + generated histories ov
 SPECS["C17"] = dict(run=run_c17, replay=replay_c17, rule=RULES["C17"], assumptions=ASSUME + ["one target triple (x86_64-unknown-linux-gnu); the no_std build is linked into a std harness"])
 RULES["C18"] = "Generated arenas (histories with moves, removals, recycling; payload = plain data) are read by 16 threads at once (barrier start, 3-4 repetitions), each running a generated program of 8-31 reads (nine traversals incl. rev(), pretty printer, whole-arena iter/par_iter folds, get_node_id) from generated start nodes; oracle = the same programs run on one thread beforehand; an arena moved into another thread must behave the same. An evaluation is one read compared. Thorough repeats the run under ThreadSanitizer. Non-trivial: arena with >= 4 live nodes and depth >= 2; distinct by forest shape. The type-level clause is decided by compiling generic Send+Sync assertions; 'no unsafe / no interior mutability' by a lexical tripwire (auxiliary, reported under extra)."
 SPECS["C18"] = dict(run=run_c18, replay=replay_c18, rule=RULES["C18"], assumptions=["schedules are whatever the OS produces: 'every scheduling' is sampled, not enumerated (out of reach for this technique family)", "the type-level clause is decided by rustc on a generic function, the lexical scan covers indextree/src/*.rs only"])
+RULES["C15"] = "Generated PROGRAMS: tree literals from a grammar (nesting depth <= 8 generated / 30 in fixed stress literals, width <= 6 generated / 40 fixed; root as value or as existing NodeId with 0-3 children inside a larger tree; optional '=> {}' on root and leaves; trailing commas at every level and after the literal; (), {} and [] macro delimiters; 12 syntactic shapes of node expressions incl. blocks, match/if with '=>' and braces, closures; four spellings of the arena expression) are written into one crate per batch with the expected forest and the expected side-effect log as data, compiled against /repo and run. Oracle: returned id, number of created nodes, parent/child structure and sibling order by links, payload of every node, surroundings of an existing root, evaluation log (arena once, then root, then node expressions in textual order, each once); a literal that does not compile is a violation. An evaluation is one literal. Non-trivial: depth >= 2 and a node with children that is not the last sibling; distinct by source text with numbers removed."
+SPECS["C15"] = dict(run=run_c15, replay=replay_c15, rule=RULES["C15"], assumptions=["the grammar above bounds the program space; payload type u32; expressions are generated from 12 fixed syntactic shapes", "the generated crate is built with the dev profile against /repo/indextree with default features"])
 SPECS["C16"]["assumptions"] = ASSUME + ["one self-describing data format (serde_json) carries the derives under test; non-self-describing formats are not exercised"]
 SPECS["C14"]["assumptions"] = ["payload renderings are non-empty and do not end in a newline (the property's precondition), by construction", "documents have <= 20 (quick) / 28 (thorough) nodes, payloads <= 4 lines"]
